@@ -28,7 +28,11 @@ def named_by_rules():
             with open(f, "rb") as fh:
                 for tok in tokenize.tokenize(fh.readline):
                     if tok.type == tokenize.STRING:
-                        words |= set(re.findall(r"[A-Za-z_][A-Za-z0-9_]*", tok.string))
+                        lit = tok.string
+                        # what is written as a path (`Pager::cache_frame`, `::is_null`, r"WalReader.*::reload_blocks$"); a bare
+                        # word is a function name only if the rules look that function up (is_atom)
+                        for m_ in re.findall(r"::\s*([A-Za-z_][A-Za-z0-9_]*)", lit):
+                            words.add(m_)
         _NAMED = words
     return _NAMED
 
@@ -36,6 +40,12 @@ def named_by_rules():
 MAX_CALLEE_BLOCKS = 450
 MAX_TOTAL_BLOCKS = 7000
 MAX_DEPTH = 3
+
+
+def is_atom(prog, g):
+    """a function the rules talk about - by a path written in their text, or looked up by them on the plain evaluation of
+    this run - is part of their vocabulary and is never dissolved into its callers"""
+    return g.name in named_by_rules() or g.id in getattr(prog, "requested", ())
 
 
 def _remap_place(pl, lb):
@@ -150,7 +160,7 @@ def inlined_view(prog, root):
         g = prog.raw_fns[res]
         if g.file != root.file or g.id in stack or g.kind == "closure":
             return None
-        if g.name in named_by_rules():
+        if is_atom(prog, g):
             return None
         if len(g.blocks) > MAX_CALLEE_BLOCKS or len(blocks) + len(g.blocks) > MAX_TOTAL_BLOCKS:
             return None
